@@ -5,6 +5,7 @@ pub mod c05;
 pub mod c07;
 pub mod c09;
 pub mod c10;
+pub mod c11;
 pub mod c12;
 pub mod c13;
 
@@ -27,6 +28,7 @@ pub fn dispatch(ctx: &Ctx, replay: Option<&str>) -> i32 {
         "C07" => p!(c07),
         "C09" => p!(c09),
         "C10" => p!(c10),
+        "C11" => p!(c11),
         "C12" => p!(c12),
         "C13" => p!(c13),
         other => {
